@@ -38,6 +38,16 @@ def run_check(prop, repo, tier="quick", seed=0, extra_env=None):
 
 
 def apply_mutant(root, m):
+    if "revert" in m:
+        # undo one `fix:` commit of the repository in the scratch copy
+        d = subprocess.run(["git", "-C", "/repo", "diff", m["revert"] + "^", m["revert"],
+                            "--", "pyyeti"], capture_output=True, text=True, check=True)
+        p = subprocess.run(["patch", "-R", "-p1", "-s", "-d", root], input=d.stdout,
+                           capture_output=True, text=True)
+        if p.returncode:
+            raise RuntimeError(f"mutant {m['name']}: cannot revert {m['revert']}: "
+                               + p.stdout[-300:] + p.stderr[-300:])
+        return
     path = os.path.join(root, m["file"])
     s = open(path).read()
     n = s.count(m["old"])
@@ -82,8 +92,9 @@ def seeded(dirs):
             subprocess.run(["git", "-C", "/repo", "worktree", "add", "--detach", "-f",
                             os.path.join(d, "wt")], check=True, capture_output=True)
             wt = os.path.join(d, "wt")
-            subprocess.run(["git", "-C", wt, "apply", os.path.join(sd, "patch.diff")],
-                           check=True)
+            subprocess.run(["git", "-C", wt, "apply", "--3way",
+                            os.path.join(sd, "patch.diff")], check=True,
+                           capture_output=True)
             rc, out, wall = run_check(meta["property"], wt)
         finally:
             subprocess.run(["git", "-C", "/repo", "worktree", "remove", "--force",
